@@ -139,6 +139,145 @@ def bind_repo():
         raise HarnessError(f"operon_ai imported from {got}, expected {REPO}")
 
 
+# ---- fresh library state ----------------------------------------------------------------------
+# Module-level counters / registries / caches of the library make the first-created (n-th created) objects of a
+# process special; by the time a harness runs, this process and every forked worker have long created theirs.
+# fresh_call(module, function, *args) evaluates module.function(*args) in a process in which the library has just
+# been imported and NOTHING of it has been constructed or called yet: a server process (one per calling process,
+# started on first use) purges operon_ai* from sys.modules, re-imports the library (bind_repo) and lets the calling
+# module rebind its names (`rebind_library()` hook); every call then runs in a fork of that pristine server, so
+# each call starts from exactly the same just-imported state (a fork costs ~1 ms, a re-import ~0.2 s).
+
+_FRESH = {}  # pid of the calling process -> _FreshServer
+
+
+def _send(fd, obj):
+    import pickle
+    data = pickle.dumps(obj, protocol=pickle.HIGHEST_PROTOCOL)
+    data = len(data).to_bytes(8, "big") + data
+    while data:
+        n = os.write(fd, data)
+        data = data[n:]
+
+
+def _recv(fd):
+    import pickle
+
+    def read(n):
+        buf = b""
+        while len(buf) < n:
+            chunk = os.read(fd, min(1 << 20, n - len(buf)))
+            if not chunk:
+                raise EOFError
+            buf += chunk
+        return buf
+
+    return pickle.loads(read(int.from_bytes(read(8), "big")))
+
+
+class _FreshServer:
+    def __init__(self):
+        r_req, w_req = os.pipe()
+        r_res, w_res = os.pipe()
+        sys.stdout.flush()
+        sys.stderr.flush()
+        pid = os.fork()
+        if pid == 0:
+            try:
+                os.close(w_req)
+                os.close(r_res)
+                for other in _FRESH.values():  # ends of other servers' pipes inherited from the caller
+                    other._close()
+                _FRESH.clear()
+                self._serve(r_req, w_res)
+            except BaseException:  # noqa: BLE001
+                pass
+            finally:
+                os._exit(0)
+        os.close(r_req)
+        os.close(w_res)
+        self.pid, self.w_req, self.r_res = pid, w_req, r_res
+
+    def _close(self):
+        for fd in (self.w_req, self.r_res):
+            try:
+                os.close(fd)
+            except OSError:
+                pass
+
+    @staticmethod
+    def _serve(r_req, w_res):
+        import signal
+
+        signal.setitimer(signal.ITIMER_VIRTUAL, 0)
+        _WD.update(pid=None, frames=[], hits=0)
+        boot = None
+        try:
+            bind_repo()
+        except BaseException as e:  # noqa: BLE001 - reported with the first call
+            boot = "".join(traceback.format_exception(type(e), e, e.__traceback__))
+        rebound = set()
+        while True:
+            try:
+                modname, fname, args = _recv(r_req)
+            except EOFError:
+                return
+            if boot is None and modname not in rebound:
+                rebound.add(modname)
+                try:
+                    hook = getattr(sys.modules[modname], "rebind_library", None)
+                    if hook is not None:
+                        hook()
+                except BaseException as e:  # noqa: BLE001
+                    boot = "".join(traceback.format_exception(type(e), e, e.__traceback__))
+            if boot is not None:
+                _send(w_res, ("err", "fresh import of the library failed:\n" + boot))
+                continue
+            child = os.fork()
+            if child == 0:
+                code = 1
+                try:
+                    os.close(r_req)
+                    try:
+                        arm_watchdog()
+                        res = ("ok", getattr(sys.modules[modname], fname)(*args))
+                    except CallDidNotReturn as e:
+                        res = ("hang", (e.where, e.stack, e.harness))
+                    except BaseException as e:  # noqa: BLE001
+                        res = ("err", "".join(traceback.format_exception(type(e), e, e.__traceback__)))
+                    try:
+                        _send(w_res, res)
+                    except BaseException as e:  # noqa: BLE001 - e.g. an unpicklable result
+                        _send(w_res, ("err", f"result of {fname} could not be sent: {type(e).__name__}: {e}"))
+                    code = 0
+                finally:
+                    os._exit(code)
+            _pid, status = os.waitpid(child, 0)
+            if status != 0:
+                _send(w_res, ("err", f"fresh-state child for {modname}.{fname} died with wait status {status}"))
+
+    def call(self, modname, fname, args):
+        _send(self.w_req, (modname, fname, args))
+        tag, val = _recv(self.r_res)
+        if tag == "hang":
+            raise CallDidNotReturn(*val)
+        if tag == "err":
+            raise HarnessError("fresh-state call failed:\n" + val)
+        return val
+
+
+def fresh_call(modname, fname, *args):
+    """modname.fname(*args) evaluated in a process whose library state is "just imported, nothing constructed yet";
+    args and result are pickled. fname must be a module-level function; it should create everything it needs itself."""
+    srv = _FRESH.get(os.getpid())
+    if srv is None:
+        for stale in _FRESH.values():  # servers of the process this one was forked from
+            stale._close()
+        _FRESH.clear()
+        srv = _FRESH[os.getpid()] = _FreshServer()
+    return srv.call(modname, fname, args)
+
+
 def jsonable(x):
     """Best-effort conversion of cases/ops to JSON (tuples -> lists, odd values -> repr)."""
     if isinstance(x, (str, int, bool)) or x is None:
@@ -313,8 +452,20 @@ def pmap(fn, items, nproc=None, chunksize=1):
         return [fn(x) for x in items]
     _WORK_FN = fn
     ctx = multiprocessing.get_context("fork")
-    with ctx.Pool(nproc) as pool:
-        res = pool.map(_call, items, chunksize)
+    # ProcessPoolExecutor, not multiprocessing.Pool: a worker that dies (a CPython segfault was seen once inside
+    # multiprocessing's result pickling) makes Pool.map wait forever; the executor raises BrokenProcessPool instead.
+    # Work items are pure functions of their argument, so the whole map is simply redone with a fresh pool.
+    from concurrent.futures import ProcessPoolExecutor
+    from concurrent.futures.process import BrokenProcessPool
+
+    for attempt in (1, 2, 3):
+        try:
+            with ProcessPoolExecutor(nproc, mp_context=ctx) as ex:
+                res = list(ex.map(_call, items, chunksize=chunksize))
+            break
+        except BrokenProcessPool as e:
+            if attempt == 3:
+                raise HarnessError(f"a pool worker died three times in a row: {e}")
     out = []
     for tag, val in res:
         if tag == "hang":
